@@ -6,7 +6,8 @@
    CancelScope.__exit__, fb = __uncancel_task falls back on the CancelledError message (finding C13-F2); both are read
    from /repo on every run into Gen/ParamsC13.v (unrepaired tree: fx = false, fb = true); the theorems quantify over both., [step] one machine step, [run_steps fuel] iterates it. *)
 From Coq Require Import ZArith List Bool Arith.
-From EN Require Import Conc.CancelScope Proofs.C13_core Proofs.C13_inv.
+From EN Require Import Conc.CancelScope Conc.CancelScopeDomain Proofs.C13_core Proofs.C13_inv Proofs.C13_more
+  Proofs.C13_bounded.
 Import ListNotations.
 
 (* ---------------------------------------------------------------------------------------------------------------
@@ -92,6 +93,112 @@ Example leftover_witness_repaired :
   let st := run_steps 200 (init true true leftover_witness [] [] 0) in
   md st = MDone (Some ETimeout) /\ t_cnt st = 0 /\ g_leak st = 0.
 Proof. vm_compute. repeat split; reflexivity. Qed.
+
+(* ===============================================================================================================
+   Goals beyond the core.  For each: the FULL statement (comment), what the faithful model says about it (a refutation
+   with a witness replayed on the real code where it is false), a local form valid for EVERY state, and a *_bounded
+   theorem: a COMPLETE enumeration (vm_compute, lifted with forallb_forall) of the finite domain of
+   Conc/CancelScopeDomain.v -- 285 programs (one or two of {sleep 1, sleep 2, coro_yield, scope.cancel()} inside a
+   move_on_after / timeout (deadline 1|2) / ignore_cancellation / try-except CancelledError, optionally nested in an
+   outer scope, followed by sleep 1; coro_yield) x 25 controller schedules (none, or task.cancel() at the front / back of
+   the ready queue of loop iteration 1..12) x the three states of the code (as found; F1 repaired; F1 and F2 repaired),
+   busy-loop compression K = 2.  The instrumentation flags are set in task_step (observe_resumption):
+     g_late     an await point outside every shield resumed normally although an enclosing scope had cancel_called
+     g_shbroken an exception was delivered to a coroutine driven by cancel_shielded_await
+     g_lost     an await point outside every shield resumed normally while a controller cancellation that had been
+                accepted when the task was inside a shield / shielded yield was still owed (it is owed until a
+                CancelledError without a scope id -- a foreign one -- is delivered outside a shield). *)
+
+(* ---- interrupt_on_time.  FULL: forall reachable st, <some active scope has cancel_called> -> every later resumption of
+   the host task at an await point outside a shield is by CancelledError (g_late never set).  Not proved in general
+   (needs the ready-queue ordering invariant).  Local form, every state: a task marked _must_cancel resumes its
+   innermost bare-yield / sleep await by CancelledError when no shield driver is on the coroutine stack; and
+   Task.cancel() on a live task always leaves such a mark or a cancelled awaited future. *)
+Theorem interrupt_next_resumption_partial : forall st v k w,
+  t_must st = true -> frames st = FWait w :: k -> no_shield k -> (forall id, w <> WShYield id) ->
+  exists m, md (task_step st v) = MRun (CRaise (ECancel m)).
+Proof. exact must_cancel_interrupts. Qed.
+Print Assumptions interrupt_next_resumption_partial.
+Theorem cancel_always_marks : forall st m, task_done st = false ->
+  t_must (task_cancel st m) = true \/
+  exists f, t_waiter (task_cancel st m) = Some f /\ exists m', f_st (get_fut (task_cancel st m) f) = FCanc m'.
+Proof. exact task_cancel_marks. Qed.
+Print Assumptions cancel_always_marks.
+Theorem interrupt_on_time_bounded : forall fx fb p pos,
+  In (fx, fb) bounded_flags -> In p bounded_programs -> In pos bounded_positions ->
+  finished (bounded_run fx fb p pos) = true /\ g_late (bounded_run fx fb p pos) = false.
+Proof. intros fx fb p pos A B C. destruct (bounded_facts fx fb p pos A B C) as ((F & _) & L & _). split; assumption. Qed.
+Print Assumptions interrupt_on_time_bounded.
+
+(* ---- shield_runs_to_completion_then_delivers.  FULL: (a) no exception is ever delivered to a coroutine driven by
+   ignore_cancellation (g_shbroken never set); (b) a cancellation swallowed by the shield is delivered at the next await
+   point outside a shield (g_lost never set).  (b) is REFUTED (finding C13-F3), in every state of the code: the driver remembers
+   only the LAST swallowed CancelledError (and asyncio hands over a single CancelledError when two requests land in one
+   iteration), so inside an already cancelled scope the scope's re-armed cancel replaces a controller cancel, and the
+   scope drops its own at __exit__. *)
+Theorem shield_swallows_then_redelivers_partial : forall st id last m outer,
+  delayed st = None ->
+  exists st', shield_resume st id ShNone last (Some (ECancel m)) outer
+              = (st', FShield id ShRun None true :: outer, RDeliver None) /\
+    delayed st' = Some (nexth st, m) /\
+    ready st' = ready st ++ [mkH (nexth st) (HDelayedCancel m) false; mkH (S (nexth st)) HDelayedPop false].
+Proof. exact shield_swallows_then_redelivers. Qed.
+Print Assumptions shield_swallows_then_redelivers_partial.
+(* enumerated domain: (a) holds in all three states of the code; (b) holds once the message fallback is gone (repair
+   of F2: the CancelledError carrying the cancelled scope's id is then no longer swallowed while a foreign request is
+   counted) -- in the code as found (b) fails in 42 of the 7 125 runs of the domain *)
+Theorem shield_runs_to_completion_then_delivers_bounded : forall fx fb p pos,
+  In (fx, fb) bounded_flags -> In p bounded_programs -> In pos bounded_positions ->
+  g_shbroken (bounded_run fx fb p pos) = false /\ (fb = false -> g_lost (bounded_run fx fb p pos) = false).
+Proof. intros fx fb p pos A B C. destruct (bounded_facts fx fb p pos A B C) as (_ & _ & S & L & _). split; assumption. Qed.
+Print Assumptions shield_runs_to_completion_then_delivers_bounded.
+(* move_on_after(1){ ignore_cancellation(sleep(3)) }; sleep(2), controller cancel from a timer at tick 2 *)
+Definition shield_lost_witness : prog :=
+  PSeq (PScope 1 KMoveOn false (Some 1) (PShield 2 (PSleep 3 3))) (PSleep 4 2).
+Theorem shield_delivers_refuted : forall fx fb,
+  let st := run_steps 2000 (init fx fb shield_lost_witness [2] [] 2) in
+  md st = MDone None /\ g_ext st = 1 /\ g_lost st = true /\ g_shbroken st = false /\
+  In (EvDone 4 5) (trace st).
+Proof. intros [] []; vm_compute; repeat split; try reflexivity; left; reflexivity. Qed.
+Print Assumptions shield_delivers_refuted.
+
+(* ---- external_cancel_propagates.  FULL: for programs without shield / shielded yield / try-except, a controller
+   task.cancel() accepted while the program runs ends the task cancelled.  REFUTED for the code as found (finding
+   C13-F2): when the controller's cancel lands after a scope's own cancel in the same loop iteration, one
+   CancelledError (carrying the scope's id) stands for both requests, __uncancel_task's cancelling() test fails but its
+   message fallback answers True: the scope swallows, the program goes on, cancelling() = 1 for ever. *)
+Definition ext_lost_witness : prog := PSeq (PScope 1 KMoveOn false (Some 1) (PSleep 2 3)) (PSleep 3 1).
+Theorem external_cancel_propagates_refuted : forall fx,
+  let st := run_steps 2000 (init fx true ext_lost_witness [] [(3, true)] 2) in
+  shield_free ext_lost_witness = true /\ catch_free ext_lost_witness = true /\
+  md st = MDone None /\ g_ext st = 1 /\ t_cnt st = 1 /\ In (EvDone 3 2) (trace st).
+Proof. intros []; vm_compute; repeat split; try reflexivity; left; reflexivity. Qed.
+Print Assumptions external_cancel_propagates_refuted.
+(* what does hold on the enumerated domain: it propagates whenever no scope of the run was ever cancelled (all three
+   states of the code), and ALWAYS once the message fallback is gone (fb = false, repair of F2) *)
+Theorem external_cancel_propagates_bounded : forall fx fb p pos,
+  In (fx, fb) bounded_flags -> In p bounded_programs -> In pos bounded_positions ->
+  shield_free p = true -> catch_free p = true -> 1 <= g_ext (bounded_run fx fb p pos) ->
+  (never_called (bounded_run fx fb p pos) = true \/ fb = false) ->
+  cancelled_out (bounded_run fx fb p pos) = true.
+Proof.
+  intros fx fb p pos A B C S K E [N|F]; destruct (bounded_facts fx fb p pos A B C) as (_ & _ & _ & _ & P1 & P2 & _); auto.
+Qed.
+Print Assumptions external_cancel_propagates_bounded.
+
+(* ---- no_leftover for the repaired __exit__ (fx = true), enumerated domain: every run finishes, every scope has
+   exited, no scope left a request behind, no uncancel() hit zero, hence task.cancelling() = the controller cancels that
+   were accepted (which include the ones F2 / F3 fail to deliver). *)
+Theorem no_leftover_bounded : forall fb p pos,
+  In (true, fb) bounded_flags -> In p bounded_programs -> In pos bounded_positions ->
+  finished (bounded_run true fb p pos) = true /\ no_active_scope (bounded_run true fb p pos) = true /\
+  g_leak (bounded_run true fb p pos) = 0 /\ g_floor (bounded_run true fb p pos) = 0 /\
+  t_cnt (bounded_run true fb p pos) = g_ext (bounded_run true fb p pos).
+Proof.
+  intros fb p pos A B C. destruct (bounded_facts true fb p pos A B C) as ((F & N & _) & _ & _ & _ & _ & _ & Fl & Lk).
+  repeat split; auto. apply bounded_no_leftover; assumption.
+Qed.
+Print Assumptions no_leftover_bounded.
 
 (* ---------------------------------------------------------------------------------------------------------------
    Non-vacuity. *)
